@@ -6,6 +6,7 @@ import (
 	"fmt"
 	"io"
 	"testing"
+	"time"
 
 	"pgregory.net/rapid"
 
@@ -20,8 +21,20 @@ type caseC06 struct {
 	Frames   []Hex  `json:"frames"`
 	Trailing Hex    `json:"trailing,omitempty"`
 	Bytewise bool   `json:"bytewise,omitempty"` // deliver the stream one byte per Read
-	Reader   string `json:"reader,omitempty"`   // concrete reader type: script (default), bytes.Reader, bytes.Buffer, bufio16, bufio4096
+	Reader   string `json:"reader,omitempty"`   // concrete reader type: script (default), bytes.Reader, bytes.Buffer, bufio16, bufio4096, chunklen
+	// EOFWithLast: the read that delivers the last bytes of the stream also returns io.EOF.
+	EOFWithLast bool `json:"eof_with_last,omitempty"`
+	// Open: the stream stays open after the last byte (a live connection): a Read
+	// beyond the data blocks instead of returning io.EOF.
+	Open    bool    `json:"open,omitempty"`
+	Prelude []preOp `json:"prelude,omitempty"`
 }
+
+// openStreamTimeout is how long a ReadPacket may take on a stream that holds
+// the complete frame but stays open. In-memory decoding takes microseconds;
+// the limit only separates "returns" from "waits for bytes beyond the frame"
+// and is confirmed by a second attempt before it counts.
+const openStreamTimeout = 5 * time.Second
 
 func checkC06(c caseC06) (sig, msg string) {
 	var stream []byte
@@ -29,12 +42,23 @@ func checkC06(c caseC06) (sig, msg string) {
 		stream = append(stream, f...)
 	}
 	stream = append(stream, c.Trailing...)
+	runPrelude(c.Prelude)
 	sr := &guard.ScriptReader{Data: stream}
 	if c.Bytewise {
 		sr.Steps = make([]guard.Step, len(stream))
 		for i := range sr.Steps {
 			sr.Steps[i].N = 1
 		}
+	}
+	if c.EOFWithLast && len(stream) > 0 {
+		if len(sr.Steps) == 0 {
+			sr.Steps = []guard.Step{{N: len(stream)}}
+		}
+		sr.Steps[len(sr.Steps)-1].Err = "EOF"
+	}
+	if c.Open {
+		sr.Block, sr.Release = true, make(chan struct{})
+		defer close(sr.Release)
 	}
 	rd, consumed := wrappedStream(c.Reader, sr)
 	want := 0
@@ -44,9 +68,24 @@ func checkC06(c caseC06) (sig, msg string) {
 			return "harness", fmt.Sprintf("harness: frame %d is not a complete frame: %s", i, hx(f))
 		}
 		alone := contiguous(f)
-		got := readFrom(rd, len(f), func() interface{} {
-			return vf.Failure{Property: "C06", Kind: "hang", Case: mustJSON(c), Signature: "hang"}
-		})
+		var got readResult
+		if c.Open {
+			done := make(chan readResult, 1)
+			go func() {
+				done <- readFrom(rd, len(f), func() interface{} {
+					return vf.Failure{Property: "C06", Kind: "hang", Case: mustJSON(c), Signature: "hang"}
+				})
+			}()
+			select {
+			case got = <-done:
+			case <-time.After(openStreamTimeout):
+				return "waits-beyond-frame", fmt.Sprintf("call %d: frame %s has arrived completely on a stream that stays open (%s reader), but ReadPacket does not return: it waits for bytes beyond the frame", i, hx(f), c.Reader)
+			}
+		} else {
+			got = readFrom(rd, len(f), func() interface{} {
+				return vf.Failure{Property: "C06", Kind: "hang", Case: mustJSON(c), Signature: "hang"}
+			})
+		}
 		want += total
 		if got.Panic != nil {
 			return "panic", fmt.Sprintf("call %d panicked: %v", i, got.Panic.Value)
@@ -58,7 +97,7 @@ func checkC06(c caseC06) (sig, msg string) {
 			return "result-depends-on-neighbours", fmt.Sprintf("call %d on frame %s differs from reading that frame alone: %s", i, hx(f), d)
 		}
 	}
-	if len(c.Trailing) == 0 {
+	if len(c.Trailing) == 0 && !c.Open {
 		got := readFrom(rd, 16, func() interface{} {
 			return vf.Failure{Property: "C06", Kind: "hang", Case: mustJSON(c), Signature: "hang"}
 		})
@@ -104,12 +143,23 @@ func TestC06(t *testing.T) {
 		}
 		c.Bytewise = rapid.IntRange(0, 3).Draw(t, "bytewise") == 0
 		c.Reader = rapid.SampledFrom(wrapKinds).Draw(t, "reader")
+		c.EOFWithLast = rapid.IntRange(0, 3).Draw(t, "eofwithlast") == 0
+		if rapid.IntRange(0, 5).Draw(t, "open") == 0 && (c.Reader == "script" || c.Reader == "bufio16" || c.Reader == "bufio4096") {
+			c.Open, c.EOFWithLast, c.Trailing = true, false, nil
+		}
+		c.Prelude = drawPrelude(t)
 		for _, k := range kinds {
 			if k == "valid-large" {
 				c.Bytewise = false // millions of one-byte reads add time, not coverage
 			}
 		}
 		sig, msg := checkC06(c)
+		if sig == "waits-beyond-frame" {
+			if sig2, _ := checkC06(c); sig2 != "waits-beyond-frame" {
+				sig, msg = "", "" // did not repeat: not a verdict
+				r.Note("a read on an open stream exceeded %v once and did not repeat", openStreamTimeout)
+			}
+		}
 		nt := false
 		class := fmt.Sprintf("frames=%d", n)
 		for i := 0; i < n-1; i++ {
@@ -124,12 +174,18 @@ func TestC06(t *testing.T) {
 			class += "/trailing"
 		}
 		class += "/" + c.Reader
+		if c.Open {
+			class += "/open-stream"
+		}
+		if c.EOFWithLast {
+			class += "/eof-with-last-bytes"
+		}
 		var stream []byte
 		for _, f := range c.Frames {
 			stream = append(stream, f...)
 		}
-		r.Case(vf.FPs(string(stream), string(c.Trailing), fmt.Sprint(c.Bytewise), c.Reader), nt, class, func() interface{} {
-			s := caseC06{Trailing: c.Trailing, Bytewise: c.Bytewise, Reader: c.Reader}
+		r.Case(vf.FPs(string(stream), string(c.Trailing), fmt.Sprint(c.Bytewise, c.EOFWithLast, c.Open, len(c.Prelude)), c.Reader), nt, class, func() interface{} {
+			s := caseC06{Trailing: c.Trailing, Bytewise: c.Bytewise, Reader: c.Reader, EOFWithLast: c.EOFWithLast, Open: c.Open}
 			for _, f := range c.Frames {
 				if len(f) > 48 {
 					f = f[:48]
